@@ -211,7 +211,7 @@ pub fn c10_conv_number_emptystr() {
     std::mem::forget(v);
 }
 
-//@ harness: c10_conv_number_emptyarr tier=thorough timeout=1500 kind=main mem=16
+//@ harness: c10_conv_number_emptyarr tier=thorough timeout=1500 kind=main mem=16 optional=1
 //@ encodes: js_op::to_number, js_op::to_string, js_op::str_to_number
 //@ bound: operand []: Number()-style value 0 (real to_string / str_to_number, no stub)
 #[cfg_attr(kani, kani::proof)]
@@ -225,7 +225,7 @@ pub fn c10_conv_number_emptyarr() {
     std::mem::forget(v);
 }
 
-//@ harness: c10_conv_number_object tier=thorough timeout=1200 kind=main mem=12
+//@ harness: c10_conv_number_object tier=thorough timeout=1200 kind=main mem=12 optional=1
 //@ encodes: js_op::to_number, js_op::to_string, js_op::str_to_number, core dec2flt on the constant "[object Object]"
 //@ bound: operand {}: non-numeric (None)
 #[cfg_attr(kani, kani::proof)]
